@@ -138,7 +138,7 @@ def family(t, sd):
     ms = [m for m in ms if 'avg' not in str(m['model'])]   # avg is surface sugar, not a Model node
     items += [{'model': m['model']} for m in ms]
     big = [1e-9, 1e9, -1e-9, 123456.789, 0.1, 1 / 3, -2.5e-7, 7e-5, 1e-5, -1e5]
-    ls = gen.l_seeded(92, 1500 if t == 'quick' else 20000, named=True, offsets=True, satisfy=True)
+    ls = gen.l_seeded(92, 1500 if t == 'quick' else 20000, named=True, offsets=True, satisfy=True, probe=('coef', 'rhs', 'obj', 'off'))
     ls += gen.l_seeded(93, 1000 if t == 'quick' else 10000, named=True, offsets=True, coefs=[0, 1, -1, 2.5] + big, rhss=[0, 1, -1] + big)
     items += [{'lm': s} for s in ls]
     lim = os.environ.get('VERIF_LIMIT')
